@@ -424,6 +424,12 @@ def classify(info, fn, o):
     desc = o.get('desc') or ''
     name = o.get('name') or ''
     lm = info['linemap'].get(str(o.get('line')))
+    if lm is None and o.get('line') and ('loop_invariant' in name or 'loop_decreases' in name or 'loop_assigns' in name):
+        for d in range(1, 6):
+            c = info['linemap'].get(str(o['line'] + d))
+            if c is not None and c['kind'] == 'loop_invariant':
+                lm = c
+                break
     m = TAG_RE.match(desc)
     if 'vf_reach' in desc:
         return ['__reach__'], 'reach', desc
